@@ -191,11 +191,11 @@ impl Scen1 {
             }
             match (&self.strat, &self.ax) {
                 (Strat1::Linear, None) => {
-                    go!(Interp1DBuilder::new(data).strategy(Linear::new().extrapolate(self.ext)))
+                    go!(Interp1DBuilder::new(data).strategy(configure_linear(self.ext)))
                 }
                 (Strat1::Linear, Some(ax)) => {
                     let x = Array1::from(ax.iter().map(|&v| E::of_f64(v)).collect::<Vec<_>>());
-                    go!(Interp1DBuilder::new(data).x(x).strategy(Linear::new().extrapolate(self.ext)))
+                    go!(Interp1DBuilder::new(data).x(x).strategy(configure_linear(self.ext)))
                 }
                 (Strat1::Spline(bc), axo) => {
                     let boundary: BoundaryCondition<E, D> = match bc {
@@ -395,7 +395,7 @@ impl Scen2 {
                     }
                 }};
             }
-            let st = Bilinear::new().extrapolate(self.ext);
+            let st = configure_bilinear(self.ext);
             let ar = |v: &Vec<f64>| Array1::from(v.iter().map(|&x| E::of_f64(x)).collect::<Vec<_>>());
             match (&self.xax, &self.yax) {
                 (None, None) => go!(Interp2DBuilder::new(data).strategy(st)),
@@ -467,5 +467,25 @@ where
         1 => CubicSpline::new().boundary(boundary).extrapolate(ext),
         2 => CubicSpline::new().extrapolate(!ext).boundary(boundary).extrapolate(ext),
         _ => CubicSpline::new().boundary(BoundaryCondition::Natural).extrapolate(ext).boundary(boundary),
+    }
+}
+
+/// Linear / Bilinear configured through equivalent setter sequences (round-robin): the last call decides.
+pub fn configure_linear(ext: bool) -> Linear {
+    use std::sync::atomic::{AtomicUsize, Ordering};
+    static ORDER: AtomicUsize = AtomicUsize::new(0);
+    match ORDER.fetch_add(1, Ordering::Relaxed) % 3 {
+        0 => Linear::new().extrapolate(ext),
+        1 => Linear::new().extrapolate(!ext).extrapolate(ext),
+        _ => Linear::new().extrapolate(ext).extrapolate(!ext).extrapolate(ext),
+    }
+}
+pub fn configure_bilinear(ext: bool) -> Bilinear {
+    use std::sync::atomic::{AtomicUsize, Ordering};
+    static ORDER: AtomicUsize = AtomicUsize::new(0);
+    match ORDER.fetch_add(1, Ordering::Relaxed) % 3 {
+        0 => Bilinear::new().extrapolate(ext),
+        1 => Bilinear::new().extrapolate(!ext).extrapolate(ext),
+        _ => Bilinear::new().extrapolate(ext).extrapolate(!ext).extrapolate(ext),
     }
 }
